@@ -139,15 +139,15 @@ PROPS['C09'] = {
 }
 
 PROPS['C10'] = {
-    'level': 'other',
+    'level': 'proof',
     'verus_units': ['cmsheap'],
     'kani': {'quick': [], 'thorough': []},
-    'explanation': 'Verus proof on the real CMSHeap::add/new/clear/is_empty (unbounded): add never panics (unwrap on the minimum, counter arithmetic, no assertion), the exact-count map and the ordered tree hold the same (count, element) pairs, at most k of them, and exactly min(k, number of distinct elements seen) elements are held, all of which were added. The ranking clause relative to the sketch error E is NOT decided.',
+    'explanation': 'Verus proof on the real CMSHeap::add/new/clear/is_empty (unbounded in k, stream and sketch behaviour): add never panics (unwrap on the minimum, counter arithmetic, no assertion); the exact-count map and the ordered tree hold the same (count, element) pairs, at most k; exactly min(k, number of distinct elements seen) elements are held, all of which were added; and the ranking invariant (members carry a count in [true, true + E]; while there is room every seen element is a member; once full no outsider has a true count above any member\'s stored count) is preserved, from which lemma_ranking derives C10 as stated: a seen element x is missing only if all k members have true counts >= count(x) - E.',
     'trusted_base': COMMON_TRUST + ['vstd HashMap<Rc<T>, usize> / entry-API specifications (obeys_key_model::<Rc<T>>() assumed)',
                                     'BTreeSet<TreeEntry<T>> replaced by a contract-only stub EntrySet<T> (set of (n, obj) pairs ordered by TreeEntry\'s Ord; iter().next() is a minimum by n) -- TreeEntry\'s hand-written PartialEq (obj only) and Ord ((n, obj)) are inconsistent, which vstd\'s BTreeSet model cannot express',
-                                    'CountMinSketch<T> replaced by a stub whose add() returns an arbitrary estimate >= 1'],
-    'assumptions': ['stored exact counters stay below usize::MAX', 'Kani cannot execute std HashMap/BTreeSet: violations carry no-failing-input-found'],
-    'not_decided': ['ranking clause: "x is missing only if at least k other elements have true counts >= count(x) - E" (whole-history argument over sketch errors)', 'iter() (impl Iterator over the tree) is not under contract'],
+                                    'CountMinSketch<T> replaced by a stub with ghost true counts tc and a stream constant E = max_err(): add(x) returns an estimate in [tc(x), tc(x)+E] -- the lower bound is C02, the upper bound is the DEFINITION of E in C10'],
+    'assumptions': ['stored exact counters stay below usize::MAX', 'Kani cannot execute std HashMap/BTreeSet: violations carry no-failing-input-found', 'the heap is created with a fresh (all-zero) sketch'],
+    'not_decided': ['iter() (impl Iterator over the tree, cloning the elements) is not under contract'],
 }
 
 PROPS['C11'] = {
@@ -292,8 +292,8 @@ MANIFEST_TEXT = {
     'C09': _mt('Verus proof that the real LossyCounter::add preserves the Lossy Counting invariant for every ghost true-count function; guarantee lemmas on top.',
                'Trusted: vstd HashMap/entry specs, std drain/filter/collect semantics (predicate text captured from source), f64 formulas for epsilon/bound taken in real arithmetic. Harmonic table bound not decided.',
                'Verus contracts on the extracted real add() + guarantee lemmas'),
-    'C10': _mt('Verus proof of the structural clauses on the real CMSHeap::add (never panics; map and tree agree; exactly min(k, distinct seen) elements, all added). The ranking clause relative to the sketch error is not decided, therefore "other".',
-               'Trusted: vstd HashMap specs, contract-only stub for BTreeSet<TreeEntry> and for the sketch. Ranking clause not decided; no counterexample engine.',
+    'C10': _mt('Unbounded Verus proof on the real CMSHeap::add: never panics, map and tree agree, exactly min(k, distinct seen) elements, all added, and the ranking invariant from which C10\'s ranking clause follows (lemma_ranking).',
+               'Trusted: vstd HashMap specs, contract-only stubs for BTreeSet<TreeEntry> (ordered by (n, obj)) and for the sketch (estimate in [true, true+E]). No counterexample engine (Kani cannot run HashMap/BTreeSet).',
                'Verus contracts on the extracted real add()'),
     'C11': _mt('Allocation-size contracts: Verus (unbounded) for all_zero_intvector, Bloom, Cuckoo, HLL, Reservoir; bounded Kani for CMS, Quotient, TDigest backlog.',
                'Trusted: IntVector/FixedBitSet/Vec allocation behaviour as stated in the stubs; TDigest centroid count, LossyCounter/CMSHeap growth not decided.',
